@@ -13,6 +13,7 @@ import (
 	"sync"
 	"syscall"
 	"testing"
+	"time"
 
 	"github.com/sirupsen/logrus"
 	"google.golang.org/grpc"
@@ -52,13 +53,16 @@ import (
 type REM struct{}
 
 type RemFault struct {
-	Kind string `json:"kind"` // disk-eio | disk-dead | crash | net
+	Kind string `json:"kind"` // disk-eio | disk-dead | crash | net | src-eio (the K-th read of a file of the SOURCE store fails)
 	// disk faults: the K-th operation of class Class on the destination fails (the ordinal is counted
 	// per class because the puller writes, uploads and finalises in different goroutines: a global
 	// ordinal would name a different operation from one execution to the next)
 	Class string `json:"class,omitempty"`
 	K     int    `json:"k"`
 	Rate  int    `json:"rate,omitempty"` // net: one exchange in Rate is disturbed
+	// src-eio: count positioned reads only (chunk records; opening a store reads its manifest and its
+	// journal sequentially): the failure then strikes the walk of the history, which is under way
+	Mid bool `json:"mid,omitempty"`
 }
 
 var remFaultClasses = []string{"create:table", "create:temp", "write:table", "write:temp", "rename:table", "rename:temp", "remove:any"}
@@ -95,7 +99,10 @@ type RemStep struct {
 	Branch int       `json:"branch"`
 	N      int       `json:"n,omitempty"`
 	Force  bool      `json:"force,omitempty"`
+	Depth  int       `json:"depth,omitempty"`  // clone: a shallow clone of that depth
+	Newest bool      `json:"newest,omitempty"` // the step runs on the newest clone instead of DB
 	Fault  *RemFault `json:"fault,omitempty"`
+	Retry  bool      `json:"retry,omitempty"` // a failed transfer is tried once more, undisturbed
 }
 
 type RemBody struct {
@@ -157,6 +164,10 @@ func (REM) Generate(seed uint64, tier string) *core.Scenario {
 		n = r.Range(36, 80)
 	}
 	faulty := r.Chance(3, 4) // a quarter of the runs are fault free
+	fresh := -1
+	if faulty && r.Chance(1, 4) {
+		fresh = r.Range(2, 8)
+	}
 	for len(b.Steps) < n {
 		st := RemStep{DB: r.Intn(2), Branch: r.Intn(8), N: r.Range(1, 12)}
 		transfer := false
@@ -168,8 +179,10 @@ func (REM) Generate(seed uint64, tier string) *core.Scenario {
 			}
 		case x < 38:
 			st.Op = "branch"
-		case x < 41:
+		case x < 40:
 			st.Op, transfer = "tagpush", true
+		case x < 41:
+			st.Op, transfer = "push2", true
 		case x < 43:
 			st.Op = "delremote"
 		case x < 46:
@@ -187,6 +200,9 @@ func (REM) Generate(seed uint64, tier string) *core.Scenario {
 			st.Op, transfer = "pull", true
 		case x < 93:
 			st.Op, transfer = "clone", true
+			if r.Chance(1, 4) {
+				st.Depth = r.Range(1, 3)
+			}
 		case x < 97:
 			st.Op = "restart"
 		default:
@@ -197,7 +213,13 @@ func (REM) Generate(seed uint64, tier string) *core.Scenario {
 		}
 		if transfer && faulty && r.Chance(2, 5) {
 			f := &RemFault{K: r.Range(1, 14)}
-			switch y := r.Intn(10); {
+			st.Retry = r.Chance(1, 2)
+			switch y := r.Intn(12); {
+			case y >= 10:
+				f.Kind, f.K = "src-eio", r.Range(1, 12)
+				if r.Chance(2, 3) {
+					f.Mid, f.K = true, r.Range(1, 6)
+				}
 			case y < 3:
 				f.Kind, f.Class, f.K = "disk-eio", remFaultClasses[r.Intn(len(remFaultClasses))], r.Range(1, 4)
 			case y < 5:
@@ -214,6 +236,21 @@ func (REM) Generate(seed uint64, tier string) *core.Scenario {
 			st.Fault = f
 		}
 		b.Steps = append(b.Steps, st)
+		if len(b.Steps) == fresh {
+			// a transfer into a destination that holds nothing yet (a new second remote, a new backup)
+			// whose source fails under way, and the retry of it: an empty destination has no references
+			// of its own against which a partial delivery could be checked
+			// (after a restart: a server that has just written the data serves it from memory)
+			op := []string{"push2", "backup"}[r.Intn(2)]
+			if r.Chance(1, 2) {
+				b.Steps = append(b.Steps, RemStep{Op: "restart"}, RemStep{Op: op, DB: r.Intn(2), Branch: 0, Retry: r.Chance(3, 4),
+					Fault: &RemFault{Kind: "src-eio", Mid: r.Chance(3, 4), K: r.Range(1, 6)}})
+			} else {
+				// the same out of a shallow clone, whose own store lacks the older history
+				b.Steps = append(b.Steps, RemStep{Op: "clone", Depth: r.Range(1, 2)}, RemStep{Op: "commit", Newest: true, N: r.Range(1, 4)},
+					RemStep{Op: op, Newest: true, Branch: 0, Retry: r.Chance(3, 4)})
+			}
+		}
 	}
 	raw, _ := json.Marshal(b)
 	return &core.Scenario{Property: "C35", Harness: "C35", Seed: seed, Tier: tier, Body: raw}
@@ -347,6 +384,8 @@ type remDB struct {
 	sess   *Sess
 	heads  map[string]string // local branches
 	tracks map[string]string // remote-tracking branches (origin/x -> hash)
+	// a shallow clone: its store lacks the history below some depth
+	shallow bool
 }
 
 type remRun struct {
@@ -373,6 +412,8 @@ type remRun struct {
 	remoteTags     map[string]string            // model of the remote's tags (name -> commit)
 	backedUp       map[string]map[string]string // database -> branch heads at its last successful backup sync
 	nTag, nRestore int
+	srcRel         string            // the store a transfer reads from (for source-side read faults)
+	second         map[string]string // branches pushed to the second remote, created on first use
 	events         []string          // semantic log: one line per step, commits named by where they first appeared
 	labels         map[string]string // commit hash -> label
 }
@@ -389,6 +430,16 @@ func (x *remRun) label(h string) string {
 	l := fmt.Sprintf("c%d@%d", len(x.labels), x.step)
 	x.labels[h] = l
 	return l
+}
+
+// debugf writes to the debugging trace only (never to the event log, which the log hash covers)
+func (x *remRun) debugf(format string, a ...any) {
+	if dbg := os.Getenv("DSIM_DEBUG_C35"); dbg != "" {
+		if f, err := os.OpenFile(dbg, os.O_APPEND|os.O_CREATE|os.O_WRONLY, 0o644); err == nil {
+			fmt.Fprintf(f, format+"\n", a...)
+			f.Close()
+		}
+	}
 }
 
 func (x *remRun) event(format string, a ...any) {
@@ -595,9 +646,38 @@ func (x *remRun) refresh() bool {
 		for _, r := range rows {
 			d.tracks[strings.TrimPrefix(r[0], "remotes/")] = r[1]
 		}
-		rows, err = s.Exec(x.ctx, "SELECT commit_hash, parent_hash FROM dolt_commit_ancestors")
-		if err != nil {
-			return x.fail("reading the commit graph of %s: %v", d.name, err)
+		if d.shallow {
+			// a shallow clone cannot list its whole graph (it ends in commits it does not hold): the
+			// parents of every commit that is not known yet are looked up one commit at a time
+			rows = nil
+			todo := []string{}
+			for _, m := range []map[string]string{d.heads, d.tracks} {
+				for _, k := range sortedBranches(m) {
+					todo = append(todo, m[k])
+				}
+			}
+			for len(todo) > 0 {
+				h := todo[len(todo)-1]
+				todo = todo[:len(todo)-1]
+				if _, ok := x.parents[h]; ok {
+					continue
+				}
+				one, err := s.Exec(x.ctx, "SELECT commit_hash, parent_hash FROM dolt_commit_ancestors WHERE commit_hash = '"+h+"'")
+				if err != nil {
+					continue // below the depth of the clone
+				}
+				for _, r := range one {
+					rows = append(rows, r)
+					if r[1] != "NULL" {
+						todo = append(todo, r[1])
+					}
+				}
+			}
+		} else {
+			rows, err = s.Exec(x.ctx, "SELECT commit_hash, parent_hash FROM dolt_commit_ancestors")
+			if err != nil {
+				return x.fail("reading the commit graph of %s: %v", d.name, err)
+			}
 		}
 		for _, r := range rows {
 			have := false
@@ -772,6 +852,25 @@ func (x *remRun) checkout(d *remDB, br string) bool {
 	return true
 }
 
+// transferDeadline bounds a transfer statement in simulated time. The property claims nothing about
+// progress, but a statement that never returns would keep the run from ending: after the deadline the
+// statement's context is cancelled, which makes the transfer an interrupted one (whose leftovers the
+// checks that follow look at like those of any failed transfer).
+const transferDeadline = 10 * time.Minute
+
+func (x *remRun) transfer(s *Sess, q string) ([][]string, error) {
+	ctx, cancel := context.WithTimeout(x.ctx, transferDeadline)
+	defer cancel()
+	rows, err := s.Exec(ctx, q)
+	if ctx.Err() == context.DeadlineExceeded {
+		x.res.Probe("transfer_stalled_until_cancelled")
+		if err == nil {
+			err = ctx.Err()
+		}
+	}
+	return rows, err
+}
+
 // armFault installs the fault of a transfer step; the returned function removes it and reports how
 // often it fired and the op-log positions of the destination's mutations (for crash images).
 func (x *remRun) armFault(f *RemFault, destRel string) func() (fired int, positions []remCrashPos) {
@@ -782,6 +881,25 @@ func (x *remRun) armFault(f *RemFault, destRel string) func() (fired int, positi
 	fired := 0
 	under := func(p string) bool { return p == destRel || strings.HasPrefix(p, destRel+"/") }
 	switch f.Kind {
+	case "src-eio":
+		n := 0
+		src := x.srcRel
+		x.debugf("   armed src-eio mid=%v k=%d src=%s dest=%s", f.Mid, f.K, src, destRel)
+		x.sos.Fault = func(c *simos.Call) error {
+			if f.Mid && c.Op != "readat" {
+				return nil
+			}
+			if (c.Op != "read" && c.Op != "readat") || src == "" || !(c.Path == src || strings.HasPrefix(c.Path, src+"/")) {
+				return nil
+			}
+			n++
+			if n == f.K {
+				fired++
+				x.debugf("   src-eio fires at %s of %s", c.Op, c.Path)
+				return syscall.EIO
+			}
+			return nil
+		}
 	case "disk-eio", "disk-dead":
 		n := 0
 		dead := false
@@ -849,6 +967,9 @@ func (x *remRun) armFault(f *RemFault, destRel string) func() (fired int, positi
 func (x *remRun) doStep(st *RemStep) {
 	res := x.res
 	d := x.dbs[st.DB%2]
+	if st.Newest && len(x.dbs) > 2 {
+		d = x.dbs[len(x.dbs)-1]
+	}
 	switch st.Op {
 	case "restart":
 		for _, d := range x.dbs {
@@ -929,6 +1050,19 @@ func (x *remRun) doStep(st *RemStep) {
 				x.event("delremote ok")
 			} else {
 				res.Probe("remote_branch_delete_refused")
+				// DeleteRemoteBranch removes the branch at the remote first and the pusher's tracking
+				// ref afterwards: a pusher that never fetched the branch gets an error for the second
+				// half although the first was done. The property says nothing about deletions, so a
+				// branch that is gone after a failed deletion of exactly that branch is accepted.
+				if rdb, oerr := x.openStoreDir(x.remDir, false); oerr == nil {
+					if heads, herr := branchHeads(x.ctx, rdb); herr == nil {
+						if _, still := heads[br]; !still {
+							delete(x.remote, br)
+							res.Probe("failed_delete_had_removed_the_remote_branch")
+						}
+					}
+					rdb.Close()
+				}
 			}
 			x.refresh()
 			x.verify("remote branch deletion", st, nil)
@@ -954,14 +1088,20 @@ func (x *remRun) doStep(st *RemStep) {
 		br := x.pick(d, st.Branch)
 		local := d.heads[br]
 		old, had := x.remote[br]
+		x.srcRel = d.dir
 		disarm := x.armFault(st.Fault, x.remRel)
 		q := "CALL dolt_push('origin', '" + br + "')"
 		if st.Force {
 			q = "CALL dolt_push('--force', 'origin', '" + br + "')"
 		}
-		_, err := s.Exec(x.ctx, q)
+		_, err := x.transfer(s, q)
 		fired, positions := disarm()
 		x.noteFault(st.Fault, fired)
+		if err != nil && st.Retry {
+			res.Probe("retried_after_failure")
+			x.debugf("   first attempt failed: %s", firstLine(err))
+			_, err = x.transfer(s, q)
+		}
 		if err == nil {
 			res.Probe("transfer_ok")
 			res.Probe("push_ok")
@@ -996,10 +1136,16 @@ func (x *remRun) doStep(st *RemStep) {
 			return ""
 		})
 	case "fetch":
+		x.srcRel = x.remRel
 		disarm := x.armFault(st.Fault, d.dir)
-		_, err := s.Exec(x.ctx, "CALL dolt_fetch('origin')")
+		_, err := x.transfer(s, "CALL dolt_fetch('origin')")
 		fired, positions := disarm()
 		x.noteFault(st.Fault, fired)
+		if err != nil && st.Retry {
+			res.Probe("retried_after_failure")
+			x.debugf("   first attempt failed: %s", firstLine(err))
+			_, err = x.transfer(s, "CALL dolt_fetch('origin')")
+		}
 		x.refresh()
 		if err == nil {
 			res.Probe("transfer_ok")
@@ -1028,7 +1174,7 @@ func (x *remRun) doStep(st *RemStep) {
 		br := rbs[st.Branch%len(rbs)]
 		if _, ok := d.heads[br]; !ok {
 			// first make the branch exist locally (fetch + checkout creates it from the tracking ref)
-			s.Exec(x.ctx, "CALL dolt_fetch('origin')")
+			x.transfer(s, "CALL dolt_fetch('origin')")
 			x.refresh()
 		}
 		if !x.checkout(d, br) {
@@ -1036,10 +1182,17 @@ func (x *remRun) doStep(st *RemStep) {
 		}
 		x.refresh()
 		oldLocal := d.heads[br]
+		x.srcRel = x.remRel
 		disarm := x.armFault(st.Fault, d.dir)
-		_, err := s.Exec(x.ctx, "CALL dolt_pull('origin', '"+br+"')")
+		_, err := x.transfer(s, "CALL dolt_pull('origin', '"+br+"')")
 		fired, positions := disarm()
 		x.noteFault(st.Fault, fired)
+		if err != nil && st.Retry {
+			res.Probe("retried_after_failure")
+			x.debugf("   first attempt failed: %s", firstLine(err))
+			s.Exec(x.ctx, "CALL dolt_merge('--abort')")
+			_, err = x.transfer(s, "CALL dolt_pull('origin', '"+br+"')")
+		}
 		if err != nil {
 			// a conflicting merge leaves the session in a merge state: abort it
 			s.Exec(x.ctx, "CALL dolt_merge('--abort')")
@@ -1065,6 +1218,64 @@ func (x *remRun) doStep(st *RemStep) {
 		x.localUnchanged(d, before[d.name], "pull", br)
 		x.verify("pull", st, nil)
 		x.crashImages(st, positions, d.dir, true, nil)
+	case "push2":
+		// a second remote that starts empty: the first transfer into it meets a store without a root
+		r2Rel := "remotes/r2"
+		r2Dir := filepath.Join(x.root, "remotes", "r2")
+		if x.second == nil {
+			os.MkdirAll(r2Dir, 0o755)
+			if _, err := s.Exec(x.ctx, "CALL dolt_remote('add', 'second', 'file://"+r2Dir+"')"); err != nil {
+				res.Probe("second_remote_refused")
+				return
+			}
+			x.second = map[string]string{}
+		} else if _, ok := d.heads["main"]; ok {
+			// the other database may not know the remote yet
+			s.Exec(x.ctx, "CALL dolt_remote('add', 'second', 'file://"+r2Dir+"')")
+		}
+		br := x.pick(d, st.Branch)
+		local := d.heads[br]
+		x.srcRel = d.dir
+		disarm := x.armFault(st.Fault, r2Rel)
+		q := "CALL dolt_push('--force', 'second', '" + br + "')"
+		_, err := x.transfer(s, q)
+		fired, positions := disarm()
+		x.noteFault(st.Fault, fired)
+		if err != nil && st.Retry {
+			res.Probe("retried_after_failure")
+			x.debugf("   first attempt failed: %s", firstLine(err))
+			_, err = x.transfer(s, q)
+		}
+		if err == nil {
+			res.Probe("transfer_ok")
+			res.Probe("push_to_second_remote_ok")
+			x.event("push2_ok")
+			x.second[br] = local
+		} else {
+			res.Probe("push_to_second_remote_failed")
+			x.event("push2_failed")
+		}
+		if rdb2, oerr := x.openStoreDir(r2Dir, false); oerr == nil {
+			heads, _ := branchHeads(x.ctx, rdb2)
+			for _, b2 := range sortedBranches(heads) {
+				if heads[b2] != x.second[b2] && !(b2 == br && heads[b2] == local) {
+					res.Violate("remote-branch-moved-unexpectedly", "remote=second", x.step, "the second remote has branch %s at %s; acknowledged pushes put it at %q", b2, heads[b2], x.second[b2])
+				}
+				x.second[b2] = heads[b2]
+			}
+			if err == nil && heads[br] != local {
+				res.Violate("pushed-branch-not-on-remote", "remote=second", x.step, "after a successful push of %s/%s (%s) the second remote has it at %q", d.name, br, local, heads[br])
+			}
+			if vs, ok := rdb2.ValueReadWriter().(*types.ValueStore); ok {
+				if n, bad, werr := walkStore(x.ctx, vs); werr == nil && len(bad) > 0 {
+					res.Violate("ref-points-at-missing-data", "after=push;store=second-remote", x.step, "a walk from the root of the second remote (%d chunks read) finds: %s", n, strings.Join(bad, "; "))
+				}
+			}
+			rdb2.Close()
+		} else if len(x.second) > 0 {
+			res.Violate("remote-unreadable", "remote=second", x.step, "%s", firstLine(oerr))
+		}
+		x.crashImages(st, positions, r2Rel, false, nil)
 	case "tagpush":
 		x.nTag++
 		name := fmt.Sprintf("v%d", x.nTag)
@@ -1079,7 +1290,7 @@ func (x *remRun) doStep(st *RemStep) {
 		}
 		at := rows[0][0]
 		disarm := x.armFault(st.Fault, x.remRel)
-		_, err = s.Exec(x.ctx, "CALL dolt_push('origin', '"+name+"')")
+		_, err = x.transfer(s, "CALL dolt_push('origin', '"+name+"')")
 		fired, positions := disarm()
 		x.noteFault(st.Fault, fired)
 		if err == nil {
@@ -1107,10 +1318,16 @@ func (x *remRun) doStep(st *RemStep) {
 		}
 		if st.Op == "backup" {
 			want := copyMap(d.heads)
+			x.srcRel = d.dir
 			disarm := x.armFault(st.Fault, bkRel)
-			_, err := s.Exec(x.ctx, "CALL dolt_backup('sync', 'bk')")
+			_, err := x.transfer(s, "CALL dolt_backup('sync', 'bk')")
 			fired, positions := disarm()
 			x.noteFault(st.Fault, fired)
+			if err != nil && st.Retry {
+				res.Probe("retried_after_failure")
+				x.debugf("   first attempt failed: %s", firstLine(err))
+				_, err = x.transfer(s, "CALL dolt_backup('sync', 'bk')")
+			}
 			if err == nil {
 				res.Probe("transfer_ok")
 				res.Probe("backup_sync_ok")
@@ -1161,7 +1378,7 @@ func (x *remRun) doStep(st *RemStep) {
 		x.nRestore++
 		name := fmt.Sprintf("r%d", x.nRestore)
 		disarm := x.armFault(st.Fault, "test/"+name)
-		_, err := s.Exec(x.ctx, "CALL dolt_backup('restore', 'file://"+bkDir+"', '"+name+"')")
+		_, err := x.transfer(s, "CALL dolt_backup('restore', 'file://"+bkDir+"', '"+name+"')")
 		fired, _ := disarm()
 		x.noteFault(st.Fault, fired)
 		if err != nil {
@@ -1204,20 +1421,33 @@ func (x *remRun) doStep(st *RemStep) {
 		x.nClone++
 		name := fmt.Sprintf("c%d", x.nClone)
 		rel := "test/" + name
+		x.srcRel = x.remRel
 		disarm := x.armFault(st.Fault, rel)
-		_, err := s.Exec(x.ctx, "CALL dolt_clone('"+x.url+"', '"+name+"')")
+		q := "CALL dolt_clone('" + x.url + "', '" + name + "')"
+		if st.Depth > 0 {
+			// a shallow clone is made by the puller (not by copying chunk files) into a store that holds
+			// nothing yet; commits below the depth are recorded as known-absent ("ghosts")
+			q = fmt.Sprintf("CALL dolt_clone('--depth', '%d', '%s', '%s')", st.Depth, x.url, name)
+		}
+		_, err := x.transfer(s, q)
 		fired, positions := disarm()
 		x.noteFault(st.Fault, fired)
 		if err == nil {
 			res.Probe("transfer_ok")
 			res.Probe("clone_ok")
 			x.event("clone_ok")
-			c := &remDB{name: name, dir: rel}
+			c := &remDB{name: name, dir: rel, shallow: st.Depth > 0}
 			x.dbs = append(x.dbs, c)
 			if !x.refresh() {
 				return
 			}
+			if st.Depth > 0 {
+				res.Probe("shallow_clone_ok")
+			}
 			for _, br := range sortedBranches(x.remote) {
+				if st.Depth > 0 && br != "main" {
+					continue // a shallow clone takes the default branch only
+				}
 				if c.tracks["origin/"+br] != x.remote[br] {
 					res.Violate("cloned-ref-not-at-remote-head", "op=clone", x.step, "clone %s has origin/%s at %q, the remote branch is at %s", name, br, c.tracks["origin/"+br], x.remote[br])
 				}
